@@ -439,3 +439,136 @@ idle = Contract(
     note='create_task is modelled as handing back the task; awaiting it gives its result or its exception (CancelledError '
          'is a BaseException and is not caught by `except Exception`: it propagates, which the raises clauses cover)')
 CONTRACTS_IDLE = [handle_updates, idle]
+
+
+# ---- IMAPConnection.authenticate: the SASL exchange (C09 / C06)
+#
+# The mechanism (pysasl) is abstract: server_attempt(responses) returns (creds, final) or raises ServerChallenge /
+# UnicodeError.  Decided: the credentials handed back are exactly what the mechanism returned for the list of responses;
+# that list only ever grows by (challenge data, base64-decoded client line) for a line that was read AFTER the challenge
+# was written; a `*` line or undecodable base64 ends the exchange with AuthenticationError (which _run_state answers BAD)
+# before anything is appended; no other exception class is produced by the function itself; an unknown mechanism gives None
+# without any I/O.
+import binascii  # noqa: E402
+from pysasl.mechanism import ServerChallenge  # noqa: E402
+
+MechS = RefS('Mech')
+BytesS = RefS('Bytes')
+CredsS = RefS('Creds')
+RespItem = RefS('ChallengeResponse')
+IO_RAISES = (ConnectionError, EOFError, CancelledError)
+
+
+def _auth_ghost(st, sc):
+    g = st.ghost
+    g['written'] = VInt(z3.IntVal(0))       # continuation requests written
+    g['read'] = VInt(z3.IntVal(0))          # client lines read
+    g['appended'] = VInt(z3.IntVal(0))
+    g['mech_creds'] = OptS(CredsS).none()
+    g['attempts'] = VInt(z3.IntVal(0))
+    g['last_line_decoded'] = VBool(False)
+    g['cancelled'] = VBool(False)
+    g['appended_before_line'] = VInt(z3.IntVal(0))
+
+
+def _get_server(ex, frame, e, base=None):
+    ex.eval_args(e, frame)
+    return OptS(MechS).fresh('mech')
+
+
+def _server_attempt(ex, frame, e, base=None):
+    args, kw = ex.eval_args(e, frame)
+    g = ex.st.ghost
+    ex.oblige(f'{ex.c.name}/server_attempt/gets_the_responses_collected_so_far',
+              _t(args[0].len) == _t(g['appended']))
+    g['attempts'] = VInt(_t(g['attempts']) + 1)
+    k = ex.choose(3)
+    if k == 1:
+        raise PyRaise(ServerChallenge)
+    if k == 2:
+        raise PyRaise(UnicodeError)
+    creds = OptS(CredsS).fresh('creds')
+    g['mech_creds'] = creds
+    return VTuple([creds, OptS(BytesS).fresh('final')])
+
+
+def _auth_write(ex, frame, e, base=None):
+    ex.eval_args(e, frame)
+    g = ex.st.ghost
+    g['written'] = VInt(_t(g['written']) + 1)
+    return VNone()
+
+
+def _read_continuation(ex, frame, e, base=None):
+    ex.eval_args(e, frame)
+    g = ex.st.ghost
+    ex.oblige(f'{ex.c.name}/read_continuation/only_after_a_continuation_request', _t(g['written']) == _t(g['read']) + 1)
+    _may_raise(ex, IO_RAISES)
+    g['read'] = VInt(_t(g['read']) + 1)
+    g['last_line_decoded'] = VBool(False)
+    g['appended_before_line'] = g['appended']
+    return BytesS.fresh('line')
+
+
+def _b64decode(ex, frame, e, base=None):
+    ex.eval_args(e, frame)
+    if ex.choose(2) == 1:
+        raise PyRaise(binascii.Error)
+    ex.st.ghost['last_line_decoded'] = VBool(True)
+    return BytesS.fresh('decoded')
+
+
+def _challenge_response(ex, frame, e, base=None):
+    ex.eval_args(e, frame)
+    g = ex.st.ghost
+    ex.oblige(f'{ex.c.name}/ChallengeResponse/from_a_line_that_was_decoded_and_is_not_the_cancel_line',
+              z3.And(_b(g['last_line_decoded']), z3.Not(_b(g['cancelled']))))
+    g['appended'] = VInt(_t(g['appended']) + 1)
+    g['appended_before_line'] = g['appended']        # the line has been dealt with
+    return RespItem.fresh('item')
+
+
+def _auth_equal(ex, a, b):
+    """resp_bytes.rstrip(b'\\r\\n') == b'*' : the cancel line or not"""
+    if (isinstance(a, VRef) and a.sort.name == 'Bytes') or (isinstance(b, VRef) and b.sort.name == 'Bytes'):
+        c = BOOL.fresh('is_cancel_line')
+        ex.st.ghost['cancelled'] = c
+        return c
+    return None
+
+
+def _opt_term(v):
+    return OptS(CredsS).none().t if isinstance(v, VNone) else _t(v)
+
+
+_auth_inv = [
+    ('no_line_is_pending_between_rounds', lambda s: VBool(z3.And(
+        _t(s.ghost('appended')) == _t(s.ghost('appended_before_line')), _t(s.ghost('attempts')) >= 0))),
+    ('one_line_read_per_challenge_written', lambda s: VBool(_t(s.ghost('written')) == _t(s.ghost('read')))),
+    ('responses_are_the_decoded_lines', lambda s: VBool(z3.And(_t(s.responses.len) == _t(s.ghost('appended')),
+                                                                 _t(s.ghost('appended')) <= _t(s.ghost('read'))))),
+]
+
+authenticate = Contract(
+    'C09', F, 'IMAPConnection.authenticate', params=dict(self=CONN, state=RefS('ConnState2', auth=RefS('Auth')), mech_name=BytesS),
+    returns=OptS(CredsS), ghost_init=_auth_ghost, typemap={'ChallengeResponse': RespItem},
+    ensures=[('credentials_are_exactly_what_the_mechanism_returned',
+              lambda s: VBool(z3.Or(_t(s.ghost('attempts')) == 0, _opt_term(s.result) == _opt_term(s.ghost('mech_creds'))))),
+             ('unknown_mechanism_gives_none_without_io', lambda s: VBool(z3.Implies(
+                 _t(s.ghost('attempts')) == 0,
+                 z3.And(_b(is_none(s.result)), _t(s.ghost('written')) == 0, _t(s.ghost('read')) == 0))))],
+    raises={AuthenticationError: [('nothing_appended_for_the_failing_line', lambda s: VBool(
+        _t(s.ghost('appended')) == _t(s.ghost('appended_before_line'))))]},
+    raises_only=(AuthenticationError,) + IO_RAISES,
+    loops={0: Loop(invariant=_auth_inv, ghost=['written', 'read', 'appended', 'mech_creds', 'attempts', 'last_line_decoded',
+                                               'cancelled', 'appended_before_line'])},
+    calls={'state.auth.get_server': _get_server, 'mech.server_attempt': _server_attempt,
+           'b64encode': _opaque('Bytes'), 'ResponseContinuation': _opaque('Continuation'),
+           'self.write_response': _auth_write, 'self.read_continuation': _read_continuation,
+           'bytes': lambda ex, frame, e, base=None: ex.eval(e.args[0], frame),
+           'resp_bytes.rstrip': _opaque('Bytes'), 'b64decode': _b64decode, 'ChallengeResponse': _challenge_response,
+           'AuthenticationError': None},
+    note='pysasl mechanisms are abstract; termination of the exchange depends on the mechanism and is not claimed')
+del authenticate.calls['AuthenticationError']
+authenticate.equal_model = _auth_equal
+CONTRACTS_AUTH = [authenticate]
